@@ -129,6 +129,30 @@ def parse_digest(body, types, uid, where, param_types=None, nonempty=()):
             raise Refuse("%s: unknown variable %s" % (where, e))
         raise Refuse("%s: expression %r not understood" % (where, owner_expr))
 
+    def plain_item(e, raw):
+        mm = re.fullmatch(r"&?((?:self|node|edge)\.\w+|\w+)\.to_le_bytes\(\)", e)
+        if mm:
+            f, t = type_of(mm.group(1))
+            if t != "i64":
+                raise Refuse("%s: to_le_bytes of %s : %s (only i64 is understood)" % (where, f, t))
+            return f, "I64le"
+        mm = re.fullmatch(r"((?:self|node|edge)\.\w+|\w+)\.as_bytes\(\)", e)
+        if mm:
+            f, t = type_of(mm.group(1))
+            if t not in ("String", "&String", "&str"):
+                raise Refuse("%s: as_bytes of %s : %s" % (where, f, t))
+            return f, "VarStr %s" % ("true" if f in nonempty else "false")
+        mm = re.fullmatch(r"b\"([ -!#-\[\]-~]*)\"", raw.strip())
+        if mm:   # a constant byte string: domain-separation tag
+            return "<tag>", "TAG:" + mm.group(1)
+        mm = re.fullmatch(r"&?((?:self|node|edge)\.\w+|\w+)", e)
+        if mm:
+            f, t = type_of(mm.group(1))
+            if t in ("&[u8]",):
+                return f, "SLICE"   # typed by the verify side
+            return f, desc_of_type(t, f, uid)
+        raise Refuse("%s: hasher.update(%s) not understood" % (where, raw))
+
     # walk the statements in order
     pos = 0
     items = []
@@ -138,6 +162,7 @@ def parse_digest(body, types, uid, where, param_types=None, nonempty=()):
     for m in token.finditer(body):
         items.append(m)
     consumed = []
+    pending_len = None
     for m in items:
         consumed.append((m.start(), m.end()))
         if m.group("opt"):
@@ -158,33 +183,27 @@ def parse_digest(body, types, uid, where, param_types=None, nonempty=()):
                 raise Refuse("%s: optional block for %s not understood: %r" % (where, f, inner_n))
         else:
             e = re.sub(r"\s+", "", m.group("ue"))
-            mm = re.fullmatch(r"&?((?:self|node|edge)\.\w+|\w+)\.to_le_bytes\(\)", e)
+            # a u64 length prefix: hasher.update(&(X.len() as u64).to_le_bytes()) right before hasher.update(X..)
+            mm = re.fullmatch(r"&\(((?:self|node|edge)\.\w+|\w+)(?:\.as_bytes\(\))?\.len\(\)asu64\)\.to_le_bytes\(\)", e)
             if mm:
-                f, t = type_of(mm.group(1))
-                if t != "i64":
-                    raise Refuse("%s: to_le_bytes of %s : %s (only i64 is understood)" % (where, f, t))
-                fields.append((f, "I64le"))
+                if pending_len is not None:
+                    raise Refuse("%s: two length prefixes in a row" % where)
+                pending_len = norm_name(mm.group(1))
                 continue
-            mm = re.fullmatch(r"((?:self|node|edge)\.\w+|\w+)\.as_bytes\(\)", e)
-            if mm:
-                f, t = type_of(mm.group(1))
-                if t not in ("String", "&String", "&str"):
-                    raise Refuse("%s: as_bytes of %s : %s" % (where, f, t))
-                fields.append((f, "VarStr %s" % ("true" if f in nonempty else "false")))
-                continue
-            mm = re.fullmatch(r"b\"([ -!#-\[\]-~]*)\"", m.group("ue").strip())
-            if mm:   # a constant byte string: domain-separation tag
-                fields.append(("<tag>", "TAG:" + mm.group(1)))
-                continue
-            mm = re.fullmatch(r"&?((?:self|node|edge)\.\w+|\w+)", e)
-            if mm:
-                f, t = type_of(mm.group(1))
-                if t in ("&[u8]",):
-                    fields.append((f, "SLICE"))   # typed by the verify side
-                else:
-                    fields.append((f, desc_of_type(t, f, uid)))
-                continue
-            raise Refuse("%s: hasher.update(%s) not understood" % (where, m.group("ue")))
+            pl, pending_len = pending_len, None
+            if pl is not None:
+                # the next item must be the field the length belongs to
+                nxt = re.match(r"&?((?:self|node|edge)\.\w+|\w+)", e)
+                if not nxt or norm_name(nxt.group(1)) != pl:
+                    raise Refuse("%s: length prefix of %s is not followed by that field" % (where, pl))
+            name, desc = plain_item(e, m.group("ue"))
+            if pl is not None:
+                if desc.startswith("TAG:") or desc == "SLICE" or desc == "I64le":
+                    raise Refuse("%s: length prefix before %s not understood" % (where, name))
+                desc = "LenPref (%s)" % desc
+            fields.append((name, desc))
+    if pending_len is not None:
+        raise Refuse("%s: dangling length prefix of %s" % (where, pending_len))
     # residue: everything that is not a recognised statement must be known boilerplate
     residue = body
     for (a, b) in reversed(consumed):
